@@ -902,6 +902,120 @@ def rewrite_anyhow(toks):
     return toks
 
 
+def _format_pieces(lit, line):
+    """split the SOURCE text of a plain string literal used as a format string at its `{}` placeholders.
+    returns a list of ("lit", source text of a string literal) / ("arg", None). Only `{}` is inside the rule;
+    `{{` / `}}` are the escaped braces; escape sequences are copied verbatim (`\\u{..}` keeps its braces)."""
+    if not (lit.startswith('"') and lit.endswith('"') and len(lit) >= 2):
+        raise ExtractError("print!: format string is not a plain string literal at line %d" % line)
+    s, out, cur, i = lit[1:-1], [], "", 0
+    while i < len(s):
+        c = s[i]
+        if c == "\\":
+            if s.startswith("\\u{", i):
+                j = s.index("}", i) + 1
+            else:
+                j = i + 2
+            cur += s[i:j]
+            i = j
+        elif s.startswith("{{", i) or s.startswith("}}", i):
+            cur += c
+            i += 2
+        elif s.startswith("{}", i):
+            if cur:
+                out.append(("lit", '"' + cur + '"'))
+            out.append(("arg", None))
+            cur = ""
+            i += 2
+        elif c in "{}":
+            raise ExtractError("print!: format spec other than `{}` at line %d" % line)
+        else:
+            cur += c
+            i += 1
+    if cur:
+        out.append(("lit", '"' + cur + '"'))
+    return out
+
+
+def rewrite_print(toks, fns):
+    """R21 (opt-in, unit option `print_model` = names of the free functions that write to stdout): stdout is a ghost
+    log `vf_out: &mut VfStdout` (prelude) threaded through exactly those functions.
+      print!("a {} b", x)   -> vf_stdout_write(vf_out, "a "); vf_stdout_write_disp(vf_out, &(x)); vf_stdout_write(vf_out, " b")
+      println!(..)          -> the same followed by vf_stdout_write(vf_out, "\\n");   println!() -> only that
+      f(args) for f in fns  -> f(vf_out, args)            (the matching parameter is added to f's signature by rewrite_fn)
+    Pieces are written in format-string order, arguments are taken by reference as the macro does. Statement position
+    gives plain statements, expression position a block."""
+    changed = True
+    while changed:
+        changed = False
+        for s, o, c, name in _macro_calls(toks, {"print", "println"}):
+            like = toks[s]
+            marks = [t for t in toks[s:c + 1] if t.k == "mark"]
+            args = [[t for t in a if t.k != "mark"] for a in split_args(toks[o + 1:c])]
+            calls = []
+            if args:
+                fmt = strip_ws(args[0])
+                if len(fmt) != 1 or fmt[0].k != "str":
+                    raise ExtractError("%s!: first argument is not a string literal at line %d" % (name, like.line))
+                rest, k = args[1:], 0
+                for kind, lit in _format_pieces(fmt[0].s, like.line):
+                    if kind == "lit":
+                        calls.append(T("vf_stdout_write(vf_out, %s)" % lit, like))
+                    else:
+                        if k >= len(rest):
+                            raise ExtractError("%s!: more `{}` than arguments at line %d" % (name, like.line))
+                        calls.append(T("vf_stdout_write_disp(vf_out, &(", like) + rest[k] + T("))", like))
+                        k += 1
+                if k != len(rest):
+                    raise ExtractError("%s!: %d argument(s) but %d `{}` at line %d" % (name, len(rest), k, like.line))
+            if name == "println":
+                calls.append(T('vf_stdout_write(vf_out, "\\n")', like))
+            nx = sidx(toks, c + 1)
+            stmt = nx < len(toks) and is_p(toks[nx], ";")
+            new = []
+            for n_, cl in enumerate(calls):
+                new += (T("; ", like) if n_ else []) + cl
+            if not stmt:
+                new = T("{ ", like) + new + T("; }", like)
+            elif not calls:
+                new = T("()", like)
+            toks[s:c + 1] = new + marks
+            changed = True
+            break
+    # calls of the functions that carry the log
+    i = 0
+    while i < len(toks):
+        t = toks[i]
+        if t.k == "ident" and t.s in fns:
+            p = pidx(toks, i - 1)
+            o = sidx(toks, i + 1)
+            if (o < len(toks) and is_p(toks[o], "(") and not (p >= 0 and (toks[p].s in (".", "fn") or (is_p(toks[p], ":") and p > 0 and is_p(toks[p - 1], ":"))))):
+                c = match_close(toks, o)
+                empty = not strip_ws([x for x in toks[o + 1:c] if x.k != "mark"])
+                toks[o + 1:o + 1] = T("vf_out" if empty else "vf_out, ", t)
+        i += 1
+    return toks
+
+
+def add_print_param(hdr, name):
+    """R21: `fn name(params)` -> `fn name(vf_out: &mut VfStdout, params)` (free functions only)"""
+    for k, t in enumerate(hdr):
+        if t.k == "ident" and t.s == "fn":
+            j = sidx(hdr, k + 1)
+            o = sidx(hdr, j + 1)
+            if is_p(hdr[o], "<"):
+                raise ExtractError("print_model: generic function %s is outside rule R21" % name)
+            if not is_p(hdr[o], "("):
+                break
+            c = match_close(hdr, o)
+            inner = strip_ws(hdr[o + 1:c])
+            if any(x.k == "ident" and x.s == "self" for x in inner[:3]):
+                raise ExtractError("print_model: method %s is outside rule R21" % name)
+            hdr[o + 1:o + 1] = T("vf_out: &mut VfStdout, " if inner else "vf_out: &mut VfStdout", hdr[o])
+            return hdr
+    raise ExtractError("print_model: parameter list of %s not found" % name)
+
+
 def apply_subst(toks, pat, repl, like_src=None, count=None):
     """replace every occurrence of significant-token sequence `pat` by the tokens of repl.
     returns number of replacements"""
